@@ -8,7 +8,7 @@ export const PROVENANCE = ['vueNamed', 'vueNamedInner', 'vueAliased', 'nsMember'
 export const DECLS = ['const', 'let', 'var', 'exportConst', 'exportDefault', 'assignment', 'nestedInCall', 'objectProp'];
 // user-supplied option keys: how each of props / emits / name is written (or not)
 const KEY_FORMS = ['absent', 'kv', 'strKey', 'shorthand', 'computedLit', 'viaSpread'];
-export const SHAPES = ['none', 'objLiteral', 'objLiteralTwoSpreads', 'identOptions', 'callOptions', 'spreadArgsAll', 'spreadArgsRest', 'spreadArgsSetupOnly', 'spreadHeadThenOpts', 'objectFirstArg', 'namedFnExpr', 'noArgs', 'identOptionsThirdArg', 'objLiteralThirdArg', 'setupByRef', 'dotCall', 'dotApply', 'objectFirstArgSpread'];
+export const SHAPES = ['none', 'objLiteralParen', 'objLiteralAsConst', 'objLiteralSatisfies', 'objLiteral', 'objLiteralTwoSpreads', 'identOptions', 'callOptions', 'spreadArgsAll', 'spreadArgsRest', 'spreadArgsSetupOnly', 'spreadHeadThenOpts', 'objectFirstArg', 'namedFnExpr', 'noArgs', 'identOptionsThirdArg', 'objLiteralThirdArg', 'setupByRef', 'dotCall', 'dotApply', 'objectFirstArgSpread'];
 
 const USER = { props: 'UP', emits: 'UE', name: '"UserName"' };
 
@@ -65,6 +65,13 @@ function buildCase(rng, prov, decl, shape, forms, resolveType) {
       parts = rng.shuffle(parts);
       if (spreadMembers.length) { L.push(`const USP = { ${spreadMembers.join(', ')} };`); parts.splice(rng.int(parts.length + 1), 0, '...USP'); }
       args = `${setup}, { ${parts.join(', ')} }`; break;
+    }
+    // the options literal under parentheses or a TS-only wrapper: still the user's options
+    case 'objLiteralParen': case 'objLiteralAsConst': case 'objLiteralSatisfies': {
+      const parts = rng.shuffle([...members, ...other]);
+      if (spreadMembers.length) { L.push(`const USP = { ${spreadMembers.join(', ')} };`); parts.splice(rng.int(parts.length + 1), 0, '...USP'); }
+      const lit = `{ ${parts.join(', ')} }`;
+      args = `${setup}, ${shape === 'objLiteralParen' ? `(${lit})` : shape === 'objLiteralAsConst' ? `${lit} as const` : `${lit} satisfies Record<string, unknown>`}`; break;
     }
     case 'objLiteralTwoSpreads': {
       // user values arrive through the FIRST spread; a later spread carries unrelated keys
@@ -223,7 +230,7 @@ export async function check(group, records) {
     // non-vue callee: the call must be untouched (same argument count, no injected keys)
     const calls = rt.log.filter((e) => (e.k === 'call' && (e.id === 'recordDC' || e.id === 'other.defineComponent')) || e.k === 'defineAsyncComponent');
     if (calls.length !== 1) return [inconclusive({ ...base, reason: `expected 1 recorded call, saw ${calls.length}` })];
-    const expectedArgc = { objectFirstArgSpread: 1, dotCall: 2, dotApply: 2, setupByRef: /setupRef, \{/.test(group.cases.v0.src) ? 2 : 1, noArgs: 0, identOptionsThirdArg: 3, objLiteralThirdArg: 3, none: 1, objLiteral: 2, objLiteralTwoSpreads: 2, identOptions: 2, callOptions: 2, spreadArgsAll: 2, spreadArgsRest: 2, spreadArgsSetupOnly: 1, spreadHeadThenOpts: 2, objectFirstArg: 1, namedFnExpr: /, \{/.test(group.cases.v0.src.split(`function ${spec.fnName}(`)[1] || '') ? 2 : 1 }[spec.shape];
+    const expectedArgc = { objectFirstArgSpread: 1, dotCall: 2, dotApply: 2, setupByRef: /setupRef, \{/.test(group.cases.v0.src) ? 2 : 1, noArgs: 0, identOptionsThirdArg: 3, objLiteralThirdArg: 3, none: 1, objLiteralParen: 2, objLiteralAsConst: 2, objLiteralSatisfies: 2, objLiteral: 2, objLiteralTwoSpreads: 2, identOptions: 2, callOptions: 2, spreadArgsAll: 2, spreadArgsRest: 2, spreadArgsSetupOnly: 1, spreadHeadThenOpts: 2, objectFirstArg: 1, namedFnExpr: /, \{/.test(group.cases.v0.src.split(`function ${spec.fnName}(`)[1] || '') ? 2 : 1 }[spec.shape];
     const argc = calls[0].id === 'recordDC' ? undefined : calls[0].argc;
     // recordDC("tag", argc, a, b): look at the final text instead of the values for the injected keys
     const finalCall = rec.final;
